@@ -80,6 +80,12 @@ prop("C14", claimed=True, level="model_checking", engine="E-SEQ",
      note="Exact for counts, keys and bucket order (ties between equal ordering values may permute), 1e-9 relative for float sums, 3% for percentiles; terms requested in the documented exact regime (segment_size >= cardinality) or ordered by key; zones the documentation leaves open (min_doc_count 0 under a filter, several values of one document in one bucket, ordering by sub-aggregation, fractional bounds on integer columns, overlapping ranges) are compared for partition invariance only or avoided.",
      design_ref="3/C14")
 
+prop("C02", claimed=True, level="model_checking", engine="E-SEQ (isolated workers) + E-SCHED + E-LOOM (planned parts noted in DESIGN.md)",
+     technique="bounded-exhaustive enumeration of operation histories on the real IndexWriter (in worker sub-processes, under four writer configurations incl. a hook-forced segment cut), every observing step compared with a reference model",
+     text="Every history of exactly 4 (thorough 5) operations over a 15-operation alphabet (adds, delete by term / id / query, operation batch, delete-all, commit, prepare + payload, abort, rollback, explicit merge, drop + reopen, wait_merging_threads) from the initial and three non-initial states, under 1 / 2 indexing workers with and without a segment cut after every 1 / 2 documents: after every commit / rollback / abort / merge / reopen a fresh searcher holds exactly the documents of the reference model (ids, keys, stored and fast fields, postings consistent), opstamps increase within a transaction, the commit opstamp exceeds them and equals meta.json's and the payload is stored.",
+     note="Depth and alphabet are bounded; merges are explicit and awaited in this part (policy-driven / concurrent behaviour belongs to the scheduler scenarios); delete_all_documents and commit_opstamp() deviations of the pinned tree are recorded known findings.",
+     design_ref="3/C02")
+
 ALL = ["C%02d" % i for i in range(1, 21)]
 REASON_TODO = "check not built yet in this revision of /verif (design in DESIGN.md section 3); will be claimed when its engine lands"
 
